@@ -105,8 +105,13 @@ class End:
             self.owner.on_eof()
 
     def flush_backlog(self):
+        drained = False
         while self.backlog and not self.paused and not self.stalled and self.owner is not None:
             self._hand_over(self.backlog.popleft())
+            drained = True
+        if drained and self.peer is not None:
+            # the writer's "buffer" (bytes this end had not consumed yet) shrank
+            self.peer._check_writable()
 
     def backlog_bytes(self):
         return sum(len(p) for k, p in self.backlog if k == "data")
@@ -144,6 +149,8 @@ class End:
         self.dead = True
         self.backlog.clear()
         self.abort()
+        if self.peer is not None:
+            self.peer._check_writable()
 
 
 class SimTransport(asyncio.Transport):
@@ -204,6 +211,10 @@ class SimTransport(asyncio.Transport):
             self._protocol.pause_writing()
 
     def on_writable(self):
+        if self._protocol_paused and self._end.peer.dead and not self._closing:
+            # like EPIPE on the flush of a kernel buffer whose reader went away
+            self._fatal(BrokenPipeError(32, "Broken pipe"))
+            return
         if self._protocol_paused and self.get_write_buffer_size() <= LOW_WATER:
             self._protocol_paused = False
             if not self._conn_lost:
@@ -256,6 +267,8 @@ class SimTransport(asyncio.Transport):
         # stop reading
         self._end.dead = True
         self._end.backlog.clear()
+        if self._end.peer is not None:
+            self._end.peer._check_writable()
         try:
             self._protocol.connection_lost(exc)
         finally:
@@ -450,6 +463,8 @@ class FakeSocket:
             self._end.close()
             self._end.dead = True
             self._end.backlog.clear()
+            if self._end.peer is not None:
+                self._end.peer._check_writable()
 
     # called by End on the loop thread
     def on_data(self, data):
